@@ -1,25 +1,12 @@
 import ZapVerif.Proofs.GoMini
-import ZapVerif.Model.Enc
-import ZapVerif.Gen.TransJsonSep
-/-! Setting for the `…_matches_source` theorems of Props/C01.lean about Gen/TransJsonSep.lean (the translated
-    `addElementSeparator`, `addKey`, `closeOpenNamespaces` of zapcore/json_encoder.go): the external intrinsic, the
-    interpreter context and the receiver fields.  Nothing here depends on the generated terms. -/
-set_option linter.unusedSimpArgs false
+import ZapVerif.Model.TransJsonSepX
+/-! Lookup facts for the `…_matches_source` theorems of Props/C01.lean about Gen/TransJsonSep.lean.
+    Nothing here depends on the shape of the generated terms. -/
 namespace ZapVerif.TransJsonSep
 open ZapVerif ZapVerif.GoMini ZapVerif.Enc ZapVerif.Gen.TransJsonSep
-
-/-- the one external intrinsic of this table: `enc.safeAddString(s)` appends the escaped form of `s` -/
-def ext : String → List Val → Option (List Val)
-  | "safeAddString", [.bytes buf, .bytes s] => some [.bytes (buf ++ esc s)]
-  | _, _ => none
-
-def X : Ctx := { ext := ext, funs := funs }
 
 @[simp] theorem X_funs : X.funs = funs := rfl
 @[simp] theorem X_ext : X.ext = ext := rfl
 @[simp] theorem ext_sas (b s : Bytes) : ext "safeAddString" [.bytes b, .bytes s] = some [.bytes (b ++ esc s)] := rfl
-
-/-- the receiver fields of a `*jsonEncoder` the translated functions touch -/
-abbrev encFld (buf : Bytes) (sp : Bool) (n : Int) : Env := [("buf", .bytes buf), ("spaced", .bool sp), ("openNs", .int n)]
 
 end ZapVerif.TransJsonSep
